@@ -443,6 +443,76 @@ theorem C12_chars_missing_value_then_dup_itemname (o : Opts) (cs : List Chunk) (
   rw [hp, denote_plain, ← pruneC_packed bc [] _ hpk]
   simp [denoteItems_append, denoteItems]
 
+/-! ### a dropped header name and a short last packet in one loop -/
+
+theorem denoteVals_pad_erase (dia : Dialect) (nk : Str → Str) (pv : List Val) (k i : Nat) :
+    (denoteVals dia nk pv ++ List.replicate k V.unk).eraseIdx i = denoteVals dia nk ((pv ++ List.replicate k Val.unk).eraseIdx i) := by
+  rw [← denoteVals_eraseIdx, Model.Parser.denoteVals_append, denoteVals_replicate_unk]
+
+/-- **C12_chars_dup_header_name_partial_packet** — among the items of a data block, a loop whose header repeats a name (dropped)
+    AND whose last packet is short.  EXACTLY two reports, CIF_DUP_ITEMNAME then CIF_PARTIAL_PACKET, each on its line; the content is
+    that of the document whose loop has the names `ns₁ ++ ns₂` and whose packets — the last one padded with `?` to the full
+    width — lack the value of the dropped column. -/
+theorem C12_chars_dup_header_name_partial_packet (o : Opts) (cs : List Chunk) (preB postB : List Block) (bc : Str)
+    (pre post : List Item) (ns1 ns2 : List Str) (n' : Str) (ps : List (List Val)) (pv : List Val) (seen2 : List Str)
+    (H : SegHost o cs preB postB bc
+      ((itemsToks pre ++ ((.loopKw, []) :: (ns1.map (fun n => (TokType.name, n)) ++ ((.name, n') ::
+        (ns2.map (fun n => (TokType.name, n)) ++ (packetsToks ps ++ valsToks pv)))))) ++ itemsToks post))
+    (hpre : wfItems o pre [] = true)
+    (hwf : ∀ n ∈ ns1 ++ ns2, wfName n = true)
+    (hfresh : ∀ n ∈ ns1 ++ ns2, o.norm n ∉ normNames o (denoteItems o.dia o.normKey pre []))
+    (hnd : ((ns1 ++ ns2).map o.norm).Nodup) (hne : ns1 ++ ns2 ≠ []) (hname : wfName n' = true)
+    (hdup : o.norm n' ∈ normNames o (denoteItems o.dia o.normKey pre []) ∨ ∃ m ∈ ns1, o.norm m = o.norm n')
+    (hlen : ∀ p ∈ ps, p.length = ns1.length + 1 + ns2.length) (hwv : ∀ p ∈ ps, wfVals o p = true)
+    (hpv : pv ≠ []) (hpl : pv.length < ns1.length + 1 + ns2.length) (hwpv : wfVals o pv = true)
+    (hpost : wfItems o post seen2 = true)
+    (hseen2 : ∀ k ∈ normNames o (denoteItems o.dia o.normKey (pre ++ [.loop (ns1 ++ ns2)
+        ((ps ++ [pv ++ List.replicate (ns1.length + 1 + ns2.length - pv.length) Val.unk]).map (fun p => p.eraseIdx ns1.length))]) []),
+      k ∈ seen2) :
+    ∃ r1 r2, parse o acceptAll [] (renderChunks cs)
+        = { rc := 0, log := [r1, r2],
+            cif := denote o.dia o.normKey (preB ++ [plainBlock bc (pre ++ [.loop (ns1 ++ ns2)
+              ((ps ++ [pv ++ List.replicate (ns1.length + 1 + ns2.length - pv.length) Val.unk]).map (fun p => p.eraseIdx ns1.length))]
+              ++ post)] ++ postB) }
+      ∧ r1.code = CIF_DUP_ITEMNAME ∧ r2.code = CIF_PARTIAL_PACKET
+      ∧ (r1.line = endLine cs ((blocksToks preB).length + 1 + ((itemsToks pre).length + (1 + ns1.length)))
+          ∨ r1.line = endLine cs ((blocksToks preB).length + 1 + ((itemsToks pre).length + (1 + ns1.length)) + 1))
+      ∧ (r2.line = endLine cs ((blocksToks preB).length + 1 + ((itemsToks pre).length +
+              (1 + ns1.length + 1 + ns2.length + (packetsToks ps).length + (valsToks pv).length)))
+          ∨ r2.line = endLine cs ((blocksToks preB).length + 1 + ((itemsToks pre).length +
+              (1 + ns1.length + 1 + ns2.length + (packetsToks ps).length + (valsToks pv).length)) + 1)) := by
+  have z1 := Lemmas.WriterChunks.szItems_toks pre
+  have z2 := Lemmas.WriterChunks.szItems_toks post
+  have z3 := Lemmas.WriterChunks.szPackets_toks ps
+  have z4 := Lemmas.WriterChunks.szVals_toks pv
+  have e : ∀ ls, denoteItems o.dia o.normKey [.loop (ns1 ++ ns2)
+        ((ps ++ [pv ++ List.replicate (ns1.length + 1 + ns2.length - pv.length) Val.unk]).map (fun p => p.eraseIdx ns1.length))] ls
+      = ls ++ [mkLoop (ns1 ++ ns2) (ps.map (fun p => (denoteVals o.dia o.normKey p).eraseIdx ns1.length) ++
+          [(denoteVals o.dia o.normKey pv ++ List.replicate (ns1.length + 1 + ns2.length - pv.length) V.unk).eraseIdx ns1.length])] := by
+    intro ls
+    simp only [denoteItems, mkLoop, List.map_map, List.map_append, List.map_cons, List.map_nil, Function.comp_def,
+      denoteVals_pad_erase, denoteVals_eraseIdx]
+  have hs2 : ∀ k ∈ normNames o (denoteItems o.dia o.normKey pre [] ++ [mkLoop (ns1 ++ ns2)
+      (ps.map (fun p => (denoteVals o.dia o.normKey p).eraseIdx ns1.length) ++
+        [(denoteVals o.dia o.normKey pv ++ List.replicate (ns1.length + 1 + ns2.length - pv.length) V.unk).eraseIdx ns1.length])]),
+      k ∈ seen2 := by
+    intro k hk; apply hseen2 k; rw [denoteItems_append, e]; exact hk
+  have := C12_chars_segment H [] _ _ _ _ _
+    (by simp only [List.length_append, List.length_cons, List.length_map] at *; omega)
+    (by
+      intro cj hcj
+      simp only [List.mem_cons, List.not_mem_nil, or_false] at hcj
+      rcases hcj with rfl | rfl <;> simp only [List.length_append, List.length_cons, List.length_map] <;> omega)
+    (fun hv => C12_seg_dup_header_name_partial_packet o hv true pre post ns1 ns2 n' ps pv [] seen2 [] [] hpre (nil_seen o) hwf hfresh hnd hne
+      hname hdup hlen hwv hpv hpl hwpv hpost hs2)
+  obtain ⟨r1, r2, hp, c1, c2, l1, l2⟩ := Reports.two (by simpa [shiftSpec] using this)
+  refine ⟨r1, r2, ?_, c1, c2, l1, l2⟩
+  have hpk : allPacked (denoteItems o.dia o.normKey (pre ++ [.loop (ns1 ++ ns2)
+      ((ps ++ [pv ++ List.replicate (ns1.length + 1 + ns2.length - pv.length) Val.unk]).map (fun p => p.eraseIdx ns1.length))] ++ post)
+      []) :=
+    allPacked_run o pre post _ seen2 hpre hpost (allPacked_loop o _ _ (by simp))
+  rw [hp, denote_plain, ← pruneC_packed bc [] _ hpk, denoteItems_append, denoteItems_append, e]
+
 /-! ### non-vacuity: the hypotheses are satisfiable (a defect in a frame, two defects in a block, a defect two frames deep) -/
 
 namespace C12Frames
@@ -566,6 +636,46 @@ theorem C12_chars_in_nested_frame_instance :
     (fun hv => C12_seg_missing_value optsN hv false [] [] (a!"_x") [] [a!"_x"] [] [] rfl (nil_seen optsN) (by decide) (by decide) rfl
       (by decide))
   exact this
+
+/-- `data_a ⏎ loop_ _p _P _q ⏎ 1 2 3 ⏎ 4 ⏎` — `_P` repeats `_p` (dropped column), the last packet has one value of three -/
+def exCs4 : List Chunk :=
+  [.tk (.data (a!"a")), .ws [.eol], .tk .loopKw, .ws [.blank 32], .tk (.name (a!"_p")), .ws [.blank 32], .tk (.name (a!"_P")),
+   .ws [.blank 32], .tk (.name (a!"_q")), .ws [.eol], .tk (.val .bare (a!"1")), .ws [.blank 32], .tk (.val .bare (a!"2")),
+   .ws [.blank 32], .tk (.val .bare (a!"3")), .ws [.eol], .tk (.val .bare (a!"4")), .ws [.eol]]
+
+theorem exOk4 : okC .cif2 .end_ [] exCs4 := by
+  simp only [exCs4, okC, List.nil_append]
+  repeat' apply And.intro
+  all_goals first | decide | (intro h; cases h) | exact Or.inl rfl | (right; intro b rest h; cases h) | exact List.all_eq_true.mp (by decide)
+
+theorem exHost4 : SegHost C12.opts2 exCs4 [] [] (a!"a")
+    ((itemsToks [] ++ ((.loopKw, []) :: ([a!"_p"].map (fun n => (TokType.name, n)) ++ ((.name, a!"_P") ::
+        ([a!"_q"].map (fun n => (TokType.name, n)) ++
+          (packetsToks [[.str (a!"1") .bare, .str (a!"2") .bare, .str (a!"3") .bare]] ++ valsToks [.str (a!"4") .bare])))))) ++ itemsToks []) where
+  store := rfl
+  utf := rfl
+  ok := exOk4
+  fit := by decide
+  first := ⟨100, _, rfl, by decide, by decide⟩
+  mfd := by decide
+  wfPreB := rfl
+  wfBc := by decide
+  fresh := by intro b hb; cases hb
+  wfPostB := rfl
+  hToks := by decide
+
+/-- non-vacuity of `C12_chars_dup_header_name_partial_packet` (and of `C12_dup_header_name_partial_packet`): two reports, 3 and 8
+    tokens into the text; the loop `_p _q` with the packets `1 3` and `4 ?` -/
+theorem C12_chars_dup_header_name_partial_packet_instance :
+    ∃ r1 r2, parse C12.opts2 acceptAll [] (renderChunks exCs4)
+        = { rc := 0, log := [r1, r2],
+            cif := [.mk (a!"a") [] [mkLoop [a!"_p", a!"_q"] [[.chr false (a!"1"), .chr false (a!"3")], [.chr false (a!"4"), .unk]]]] }
+      ∧ r1.code = CIF_DUP_ITEMNAME ∧ r2.code = CIF_PARTIAL_PACKET
+      ∧ (r1.line = endLine exCs4 3 ∨ r1.line = endLine exCs4 4) ∧ (r2.line = endLine exCs4 9 ∨ r2.line = endLine exCs4 10) :=
+  C12_chars_dup_header_name_partial_packet C12.opts2 exCs4 [] [] (a!"a") [] [] [a!"_p"] [a!"_q"] (a!"_P")
+    [[.str (a!"1") .bare, .str (a!"2") .bare, .str (a!"3") .bare]] [.str (a!"4") .bare] [a!"_p", a!"_q"] exHost4
+    rfl (by decide) (by decide) (by decide) (by decide) (by decide) (by decide) (by decide) (by decide) (by decide) (by decide)
+    (by decide) rfl (by decide)
 
 end C12Frames
 
